@@ -10,10 +10,12 @@ arbitrary request, so every interleaving, duplication and re-queueing of request
 of peers is such a list.  Consensus (what `ValidateHeader/ValidateOrphan/ValidateBlock` say
 about a block on its own ancestry) and hash injectivity are parameters (`Blk` attributes,
 `HashBinds`).  Network timing, timeouts and resource exhaustion are not modelled; that the
-handler goroutine survives a panic (`recover` in `handleRPC`) and that the node still reaches
-the honest peers' heaviest chain *within a deadline* are checked on the implementation only.
+handler goroutine survives a panic is a fact regenerated from the source
+(`handler_panics_recovered`); that the node still reaches the honest peers' heaviest chain
+*within a deadline* is checked on the implementation only.
 -/
 import Verif.Lemmas.Sync
+import Verif.Extracted.SyncerFacts
 
 namespace Verif.C11
 open Verif.Sync
@@ -195,6 +197,28 @@ theorem invalid_headers_only_drop (U : Univ) (cfg : Cfg) (n : Node) (base : Nat)
   rw [hh]
   simp only [headerPhase, hbad]
   simp
+
+/-! ### facts regenerated from `/repo/syncer/peer.go` on every run (`harness/srcfacts/syncer.go`) -/
+
+/-- **the handler goroutine survives a panic**: `handleRPC` starts with a deferred function that
+calls `recover()` (a panic while serving one RPC of one peer does not take the node down). -/
+theorem handler_panics_recovered : Verif.Extracted.syncerFacts.handleRPCRecovers = true := by decide
+
+/-- the source order of the tests in the relay handlers is the order the model transcribes:
+outline — attachment to the tip before the work of the recomputed ID (the repaired order);
+header — work before attachment, and a resync below the require height. -/
+theorem relay_check_order_as_modelled :
+    Verif.Extracted.syncerFacts.outlineTipTestBeforeWorkTest = true ∧
+    Verif.Extracted.syncerFacts.headerWorkTestBeforeTipTest = true ∧
+    Verif.Extracted.syncerFacts.headerResyncBelowRequire = true := by decide
+
+/-- every RPC of the gateway protocol has exactly one case in `handleRPC`, and anything else
+falls into `default` (an error, no state change): the set the harness enumerates is complete. -/
+theorem every_gateway_rpc_has_a_case :
+    Verif.Extracted.syncerFacts.handlerCases =
+      ["RPCShareNodes", "RPCDiscoverIP", "RPCSendHeaders", "RPCSendV2Blocks", "RPCSendTransactions",
+       "RPCSendCheckpoint", "RPCRelayV2Header", "RPCRelayV2BlockOutline", "RPCRelayV2TransactionSet",
+       "default"] := by decide
 
 /-! ### non-vacuity: a concrete universe and a concrete adversarial run -/
 
